@@ -107,6 +107,13 @@ func loadProgram(overlay map[string]string) (*loaded, error) {
 	if err := l.redirectBbolt(); err != nil {
 		return nil, err
 	}
+	// ast.Parse -> ast.VerifParse (real listener + typing driven by the parse
+	// trace the real parser produced natively for the same string)
+	ap := l.pkgs[repoMod+"/ast"]
+	if ap == nil || ap.Func("Parse") == nil || ap.Func("VerifParse") == nil {
+		return nil, fmt.Errorf("ast.Parse / ast.VerifParse not found")
+	}
+	l.P.Redirect(ap.Func("Parse"), ap.Func("VerifParse"))
 	return l, nil
 }
 
